@@ -201,14 +201,28 @@ func genC20(r *simrt.Rand, tier string) any {
 		case w < 57 && !p.Knobs.Cluster:
 			add(Op{K: "restart"})
 		case w < 65 && races:
-			m := genMutation(r)
+			// Raced mutations come from a small fixed set of kinds that grant or
+			// revoke something for token 0 of the scaffold (one rule id per kind:
+			// "concurrent-check-vs-<kind>"); every other kind is exercised sequentially.
+			m := []Op{{K: "role_delete", A: 0}, {K: "role_delete", A: r.Intn(nRole)}, {K: "member_remove", A: 0, B: 0},
+				{K: "role_create", A: r.Intn(nRole), B: 0, S: []string{"*", "db*"}[r.Intn(2)], S2: "read,write,delete"}}[r.Intn(4)]
+			focus := r.Chance(60)
 			o := Op{K: "race", Mut: &m}
 			for j, k := 0, 1+r.Intn(3); j < k; j++ {
-				o.Reqs = append(o.Reqs, genReq(r, prev))
-				o.DelayUs = append(o.DelayUs, r.Intn(300))
+				q := genReq(r, prev)
+				if focus {
+					q = genReq(r, nil)
+					q.Tok, q.Old = 0, false
+				}
+				o.Reqs = append(o.Reqs, q)
+				o.DelayUs = append(o.DelayUs, []int{0, 0, r.Intn(30), r.Intn(300)}[r.Intn(4)])
 			}
 			prev = append(prev, o.Reqs...)
 			add(o)
+			if r.Chance(70) {
+				// judged re-check of the raced keys once everything has returned
+				add(Op{K: "check", S: "direct", Reqs: append([]CheckReq(nil), o.Reqs...)})
+			}
 		default:
 			add(genMutation(r))
 		}
@@ -251,6 +265,8 @@ type snapshot struct {
 	roles   []snapRole
 	mps     []snapMP
 	cur     map[int64]string // token id -> current value at snapshot time (harness knowledge from Create/Rotate results)
+	start   time.Time        // sim time at which the operation that produced this state was invoked
+	raced   bool             // the operation ran concurrently with (unjudged) checks
 }
 
 func splitNonEmpty(s string) []string {
@@ -444,6 +460,7 @@ type c20run struct {
 	valLog   []valEv
 	hist     map[string][]*snapshot
 	opIdx    int
+	opStart  time.Time
 	judged   int
 	mutOK    int
 	mutErr   int
@@ -486,6 +503,7 @@ func (c *c20run) mode() string {
 
 func (c *c20run) snap(n *authNode, kind string) {
 	s := takeSnapshot(n.db, c.opIdx, kind)
+	s.start = c.opStart
 	cur := c.curOf(n)
 	s.cur = make(map[int64]string, len(cur))
 	for k, v := range cur {
@@ -818,20 +836,27 @@ func (c *c20run) oracle2(n *authNode, s *snapshot, q CheckReq, val string, now t
 	return s.decide(id, cur[id] == val, c.p.Knobs.Licensed, now, q)
 }
 
-// culprit names the last operation after which the correct decision for this
+// culprit finds the last operation after which the correct decision for this
 // request changed on node n (fingerprint of the finding).
-func (c *c20run) culprit(n *authNode, q CheckReq, val string, now time.Time) string {
+func (c *c20run) culprit(n *authNode, q CheckReq, val string, now time.Time) *snapshot {
 	h := c.hist[n.name]
-	if len(h) == 0 {
-		return "start"
+	// A value that is current now is followed through the history by token
+	// identity (a rotation changes the value, not what the token may do).
+	id, known := c.owner[val]
+	byIdentity := known && c.curOf(n)[id] == val
+	eval := func(s *snapshot) string {
+		if byIdentity {
+			return s.decide(id, true, c.p.Knobs.Licensed, now, q)
+		}
+		return c.oracle2(n, s, q, val, now)
 	}
-	last := c.oracle2(n, h[len(h)-1], q, val, now)
+	last := eval(h[len(h)-1])
 	for i := len(h) - 2; i >= 0; i-- {
-		if c.oracle2(n, h[i], q, val, now) != last {
-			return h[i+1].kind
+		if eval(h[i]) != last {
+			return h[i+1]
 		}
 	}
-	return h[0].kind
+	return h[0]
 }
 
 func (c *c20run) check(o Op) {
@@ -873,11 +898,34 @@ func (c *c20run) check(o Op) {
 		}
 		c.mism++
 		cause := c.culprit(n, q, vals[i], t0)
-		kind := "stale-" + got[i]
-		c.out.Violate(fmt.Sprintf("C20.%s.after-%s.%s%s", kind, cause, c.mode(), where),
-			"op %d on %s (%s): token slot %d (id %d) %s on database %q measurement %q → decision %q, but a cache-free evaluation over the same SQLite state gives %q; the correct decision last changed at a %q operation",
-			c.opIdx, n.name, o.S, q.Tok, c.owner[vals[i]], q.Perm, q.DB, q.Meas, got[i], want, cause)
+		// Classify the stale state: did a cached entry survive the operation
+		// (it was stored before the operation was invoked: nothing invalidated
+		// it), or was it stored afterwards from data read before (a check that
+		// ran concurrently with the operation)?
+		permAt, tokAt := auth.VerifRBACEntryTimes(n.rm, c.owner[vals[i]], q.DB, q.Meas, q.Perm)
+		class := "uncached"
+		switch {
+		case !permAt.IsZero() && permAt.Before(cause.start), permAt.IsZero() && !tokAt.IsZero() && tokAt.Before(cause.start),
+			!permAt.IsZero() && !tokAt.IsZero() && tokAt.Before(cause.start):
+			class = "survived"
+		case !permAt.IsZero() || !tokAt.IsZero():
+			class = "stored-after"
+		}
+		rule := fmt.Sprintf("C20.stale-%s.after-%s.%s%s", got[i], cause.kind, c.mode(), where)
+		if class == "stored-after" && cause.raced {
+			rule = fmt.Sprintf("C20.stale-%s.concurrent-check-vs-%s.%s%s", got[i], cause.kind, c.mode(), where)
+		}
+		c.out.Violate(rule,
+			"op %d on %s (%s): token slot %d (id %d) %s on database %q measurement %q → decision %q, but a cache-free evaluation over the same SQLite state gives %q; the correct decision last changed at operation %d (%s, invoked at %s); cached decision stored at %s, cached token data loaded at %s → %s",
+			c.opIdx, n.name, o.S, q.Tok, c.owner[vals[i]], q.Perm, q.DB, q.Meas, got[i], want, cause.opIdx, cause.kind, fmtT(cause.start), fmtT(permAt), fmtT(tokAt), class)
 	}
+}
+
+func fmtT(t time.Time) string {
+	if t.IsZero() {
+		return "-"
+	}
+	return t.UTC().Format("15:04:05.000000000")
 }
 
 func (c *c20run) race(o Op) {
@@ -904,7 +952,9 @@ func (c *c20run) race(o Op) {
 		simrt.Join(t)
 	}
 	if ok {
-		c.snap(c.leader, "race:"+o.Mut.K)
+		c.snap(c.leader, o.Mut.K)
+		h := c.hist[c.leader.name]
+		h[len(h)-1].raced = true
 	}
 }
 
@@ -926,6 +976,7 @@ func runC20(planAny any, cfg simrt.Config) *simkit.Outcome {
 		}
 		for i, o := range p.Ops {
 			c.opIdx = i
+			c.opStart = simrt.Now()
 			switch o.K {
 			case "check":
 				c.check(o)
@@ -952,7 +1003,7 @@ func runC20(planAny any, cfg simrt.Config) *simkit.Outcome {
 					c.snap(c.leader, o.K)
 				}
 			}
-			if len(out.Violations) > 0 {
+			if len(out.Violations) >= 3 {
 				break
 			}
 		}
